@@ -552,9 +552,10 @@ def rule_slot_exhaustion(ctx):
         # solvers whose encoder is the attack-assumption one
         if not any(opath.rsplit("::", 2)[0] in f["ty"] for v in sadt["variants"] for f in v["fields"]):
             continue
-        for b in prog.lib_bodies():
-            if b.kind == "closure" or not b.impl or b.impl.get("self_adt") != sadt["path"]:
-                continue
+        # the methods of the solver, and the helpers of the dynamics module its queries hand the SAT call to (a shared `answer_query` of the encoder)
+        own = [b for b in prog.lib_bodies() if b.kind != "closure" and b.impl and b.impl.get("self_adt") == sadt["path"]]
+        extra = [x for x in prog.reachable_from(own, virtual_dispatch=False).values() if x.kind != "closure" and x not in own and x.impl and not x.impl.get("trait") and (x.impl.get("self_adt") or "").startswith("dynamics::") and any(callee_matches(callee_of(s), r"SatSolver::solve_under_assumptions$") for s in x.calls())]
+        for b in own + extra:
             for s in b.calls():
                 if callee_matches(callee_of(s), r"SatSolver::solve_under_assumptions$"):
                     n += 1
